@@ -106,6 +106,46 @@ def linRxnsOf (isos : List (Name × List Slot)) (baseRxns : List (Name × List (
     let subs ← mapLabelmapToSubstrates subs labelmap
     pure (slotRxns rxn 0 subs prods)
 
+/-! ### label maps as Python reads them: integer indices, a negative index counts from the end -/
+
+/-- `_add_label_influx_or_efflux` (only `len(labelmap)` is read) -/
+def addInfluxEffluxI (subs prods : List Slot) (labelmap : List Int) :
+    Except LErr (List Slot × List Slot) :=
+  let prods := prods ++ List.replicate (subs.length - prods.length) Slot.ext
+  let subs := subs ++ List.replicate (prods.length - subs.length) Slot.ext
+  if labelmap.length < subs.length then .error .valueError else .ok (subs, prods)
+
+/-- the comprehension of `_map_labelmap_to_substrates` for any integer map: `substrates[pos]` with
+    Python's index rule (`Mxl.C05.pyIndex`) -/
+def pickSlotsI (subs : List Slot) : List Slot → List Int → Except LErr (List Slot)
+  | [], [] => .ok []
+  | _ :: ss, p :: ps =>
+    match Mxl.C05.pyIndex subs.length p with
+    | .error e => .error e
+    | .ok j =>
+      match subs[j]? with
+      | some s => do
+        let rest ← pickSlotsI subs ss ps
+        pure (s :: rest)
+      | none => .error .indexError
+  | _, _ => .error .valueError
+
+def mapLabelmapToSubstratesI (subs : List Slot) (labelmap : List Int) : Except LErr (List Slot) :=
+  pickSlotsI subs subs labelmap
+
+/-- body of `for rxn_name, label_map in self.label_maps.items()`, integer map -/
+def linRxnsOfI (isos : List (Name × List Slot)) (baseRxns : List (Name × List (Name × Int)))
+    (rxn : Name) (labelmap : List Int) : Except LErr (List LinRxn) :=
+  match baseRxns.lookup rxn with
+  | none => .error (.keyError rxn)
+  | some st => do
+    let (s, p) := unpackLin st
+    let subs ← slotsOf isos (dupList s)
+    let prods ← slotsOf isos (dupList p)
+    let (subs, prods) ← addInfluxEffluxI subs prods labelmap
+    let subs ← mapLabelmapToSubstratesI subs labelmap
+    pure (slotRxns rxn 0 subs prods)
+
 /-- `variables[f"{base}__{pos}"] = v`: in place if present, else appended -/
 def setSlot (m : List (Slot × Rat)) (k : Slot) (v : Rat) : List (Slot × Rat) :=
   match m with
@@ -127,6 +167,17 @@ def linearBuild (baseRxns : List (Name × List (Name × Int))) (lv : List (Name 
   let vars := initLabels.foldl (fun vs kp =>
     kp.2.foldl (fun vs pos => setSlot vs (Slot.pos kp.1 pos) (1 / (kp.2.length : Rat))) vs) zeros
   let groups ← maps.mapM fun km => linRxnsOf isos baseRxns km.1 km.2
+  pure { vars, rxns := groups.flatten }
+
+/-- `LinearLabelMapper.build_model`, integer maps (this is what the driver runs) -/
+def linearBuildI (baseRxns : List (Name × List (Name × Int))) (lv : List (Name × Nat))
+    (maps : List (Name × List Int)) (initLabels : List (Name × List Nat)) :
+    Except LErr LinModel := do
+  let isos ← lv.mapM fun kn => do pure (kn.1, ← isotopeLabels kn.1 kn.2)
+  let zeros := (isos.flatMap (·.2)).map fun s => (s, (0 : Rat))
+  let vars := initLabels.foldl (fun vs kp =>
+    kp.2.foldl (fun vs pos => setSlot vs (Slot.pos kp.1 pos) (1 / (kp.2.length : Rat))) vs) zeros
+  let groups ← maps.mapM fun km => linRxnsOfI isos baseRxns km.1 km.2
   pure { vars, rxns := groups.flatten }
 
 /-- the reading of a map that `LabelMapper` and the documentation use: product position `i` is fed
@@ -164,6 +215,15 @@ def enrichOf (lv : List (Name × Nat)) (σ : Mxl.C05.LName → Rat) : Slot → R
 def paddedSubs (lv : List (Name × Nat)) (r : Mxl.C05.BRxn) : List Slot :=
   slotsFlat lv (Mxl.C05.subsOf r)
     ++ List.replicate ((slotsFlat lv (Mxl.C05.prodsOf r)).length - (slotsFlat lv (Mxl.C05.subsOf r)).length) Slot.ext
+
+/-- the product positions of a reaction padded with `EXT` up to the substrate positions -/
+def paddedProds (lv : List (Name × Nat)) (r : Mxl.C05.BRxn) : List Slot :=
+  slotsFlat lv (Mxl.C05.prodsOf r)
+    ++ List.replicate ((slotsFlat lv (Mxl.C05.subsOf r)).length - (slotsFlat lv (Mxl.C05.prodsOf r)).length) Slot.ext
+
+/-- the `isotopomers` dict of the linear mapper when every listed compound has positions -/
+def isosOf (lv : List (Name × Nat)) : List (Name × List Slot) :=
+  lv.map fun kn => (kn.1, (List.range kn.2).map (Slot.pos kn.1))
 
 /-! ### numeric reading -/
 
